@@ -142,7 +142,8 @@ func zngVariant(vals []zed.Value, variant string) ([]byte, error) {
 				return nil, err
 			}
 		}
-		return buf.Bytes(), w.Close()
+		err := w.Close()
+		return buf.Bytes(), err
 	case "each": // a frame pair per value, control frame after the first, EOS in the middle
 		w := zngio.NewWriterWithOpts(nopWC{&buf}, zngio.WriterOpts{FrameThresh: 1})
 		for i, v := range vals {
@@ -160,7 +161,8 @@ func zngVariant(vals []zed.Value, variant string) ([]byte, error) {
 				}
 			}
 		}
-		return buf.Bytes(), w.Close()
+		err := w.Close()
+		return buf.Bytes(), err
 	case "comp": // compressed frames (the writer compresses only when it pays off)
 		w := zngio.NewWriterWithOpts(nopWC{&buf}, zngio.WriterOpts{Compress: true, FrameThresh: 100})
 		for k := 0; k < 2; k++ {
@@ -170,7 +172,8 @@ func zngVariant(vals []zed.Value, variant string) ([]byte, error) {
 				}
 			}
 		}
-		return buf.Bytes(), w.Close()
+		err := w.Close()
+		return buf.Bytes(), err
 	}
 	return nil, fmt.Errorf("unknown variant %s", variant)
 }
